@@ -435,6 +435,8 @@ prop(
         {"test": "TestC17", "checks": 350, "race": True, "timeout": 400, "thorough": {"checks": 3000, "shards": 8, "timeout": 1700}},
         {"test": "TestC17SniffStress", "rapid": False, "race": True, "timeout": 300, "thorough": {"shards": 4}},
         {"test": "TestC17RegistryStress", "rapid": False, "race": True, "timeout": 300, "thorough": {"shards": 4}},
+        # first calls of a fresh process made concurrently (lazy initialisation): 24 / 200 child processes of this test binary
+        {"test": "TestC17ColdStart", "rapid": False, "race": True, "timeout": 600, "thorough": {"shards": 2}},
     ],
     floor={"quick": 100, "thorough": 3000},
 )
